@@ -123,22 +123,36 @@ Definition is_resolved (f : fstate) : bool := match f with Resolved _ _ => true 
 Definition register_token (s : st) (tok : id) : st :=
   set_tokens s (aset id_eqb tok (length (tfuts s)) (tokens s)) (tfuts s ++ [false]).
 
-(* ---- send_request(method, params, callback, msg_id) ---- *)
-Definition send_request (s : st) (m rt : N) (cb : cbkind) (mid : option id) (w : waiter) : st :=
+(* ---- send_request(method, params, callback, msg_id) ----
+   Two phases, in the order of the code: everything is REGISTERED (id drawn, Future created,
+   callback attached, _request_futures[id], _result_types[id]) and only then is the request
+   handed to the writer.  A reply that is dispatched while `writer.write` is still running
+   (in-process / loopback transports; a read loop on another thread that is faster than the
+   sending thread) therefore already finds both entries: Proofs.OutgoingProofs.reply_during_write. *)
+Definition send_arg (cb : cbkind) (w : waiter) : option id :=
+  match cb, w with
+  | CbCreate tok _, _ => Some tok
+  | _, WCreate tok => Some tok
+  | _, _ => None
+  end.
+
+Definition send_id_of (s : st) (mid : option id) : id :=
+  match mid with Some i => i | None => IUuid (next s) end.
+
+Definition send_register (s : st) (m rt : N) (cb : cbkind) (mid : option id) (w : waiter) : st :=
   let '(i, s) := match mid with
                  | Some i => (i, s)
                  | None => (IUuid (next s), set_next s (next s + 1))      (* str(uuid.uuid4()) *)
                  end in
   let k := length (ofuts s) in
-  let s := set_ofuts s (ofuts s ++ [(k, mkO i m rt cb Pending 0 w)]) in   (* future = Future() *)
+  let s := set_ofuts s (ofuts s ++ [(k, mkO i m rt cb Pending 0 w)]) in   (* future = Future(); add_done_callback *)
   let s := set_futs s (aset id_eqb i (FOut k) (futs s)) in                (* _request_futures[id] = future *)
-  let s := set_rtypes s (aset id_eqb i rt (rtypes s)) in                  (* _result_types[id] = get_result_type(method) *)
-  let arg := match cb, w with
-             | CbCreate tok _, _ => Some tok
-             | _, WCreate tok => Some tok
-             | _, _ => None
-             end in
-  set_out s (out s ++ [WReq i m arg]).                                    (* _send_data(request) *)
+  set_rtypes s (aset id_eqb i rt (rtypes s)).                             (* _result_types[id] = get_result_type(method) *)
+
+Definition send_write (s : st) (f : wire) : st := set_out s (out s ++ [f]).   (* _send_data(request) *)
+
+Definition send_request (s : st) (m rt : N) (cb : cbkind) (mid : option id) (w : waiter) : st :=
+  send_write (send_register s m rt cb mid w) (WReq (send_id_of s mid) m (send_arg cb w)).
 
 (* what a response carries once structured *)
 Inductive outcome := ORes (rt p : N) | OErr (code : Z) (msg : list N) (data : N).
